@@ -26,8 +26,11 @@ def negfn(ev):
 
     g = copy.deepcopy(ev)
     if ev["kind"] == "wrapper":
+        op = ""
         for e in g["events"]:
-            if e[0] == "ret" and len(e[1]) > 0:
+            if e[0] == "call":
+                op = e[1]
+            if e[0] == "ret" and len(e[1]) > 0 and op != "write":
                 e[1] = e[1][:-1]
                 return g
         return None
@@ -66,6 +69,7 @@ def run(ctx):
         yield [["read", 2], ["line", 0], ["read", 3], ["read", 0], ["line", 0], ["read", 4], ["read", 1]]
         yield [["read", n], ["read", 1]]
         yield [["read", n + 1], ["read", 1], ["line", 0]]
+        yield [["write", 3], ["read", 2], ["write", 0], ["line", 0], ["write", 7], ["read", 1]]
 
     def gen_wrapper():
         for S in shorts:
@@ -79,7 +83,7 @@ def run(ctx):
         for _ in range(300 if not big else 3000):
             S = st.garbage_stream(rng, pool, rng.randrange(2, 12))
             cuts = sorted(rng.sample(range(1, max(2, len(S))), min(len(S) - 1, rng.randrange(0, 12)))) if len(S) > 2 else []
-            calls = [rng.choice((["read", rng.randrange(0, 9)], ["line", 0], ["read", rng.randrange(1, 300)])) for _ in range(rng.randrange(3, 40))]
+            calls = [rng.choice((["read", rng.randrange(0, 9)], ["line", 0], ["read", rng.randrange(1, 300)], ["write", rng.randrange(0, 40)])) for _ in range(rng.randrange(3, 40))]
             yield ("wrapper", {"S": S.hex(), "cuts": cuts, "bufsize": rng.choice((1, 2, 3, 5, 64, 4096)), "end": rng.choice(("close", "timeout")), "calls": calls})
 
     def gen_reader():
